@@ -21,7 +21,7 @@ import (
 	"github.com/jotaen/klog/klog/verifsim"
 )
 
-const quantum = 250 * time.Millisecond
+const quantum = 500 * time.Millisecond
 
 // TimeStep is one step of the time plan of a long-running process (pause).
 type TimeStep struct {
